@@ -5,10 +5,11 @@ LEVEL = "other"
 EXHAUSTIVE = True
 EXPLANATION = ("Reproducibility clause: no randomly seeded hash container is iterated and no clock / random / environment source is called "
                "anywhere in the library (outside ide) or llw, so two runs execute the same deterministic program on the same input. "
-               "Of the declaration-order clause one necessary condition is decided (FIX): the flags that drive the semantic pass's fixpoint loops are or-accumulated inside the loops over the declarations, never overwritten. The phase-interleaving matrix of DESIGN section 3 is not implemented; independence of declaration order as such is not decided.")
+               "Of the declaration-order clause one necessary condition is decided (FIX): the flags that drive the semantic pass's fixpoint loops are or-accumulated inside the loops over the declarations, never overwritten; and (FIXEXIT) each of the five propagation passes (containment, first, follow, usage, recovery) is left only through a change test, never after a bounded number of rounds (a bounded number of rounds makes the result depend on the order in which reference chains are declared). The phase-interleaving matrix of DESIGN section 3 is not implemented; independence of declaration order as such is not decided.")
 
 
 def run(ctx, rep):
     lrules.det_rules(ctx, rep)
     lrules.fixpoint_rule(ctx, rep)
+    lrules.fixpoint_exit_rule(ctx, rep)
     rep.assume("dependencies (logos, codespan-reporting, dprint-core, rustc-hash) are deterministic")
